@@ -417,7 +417,8 @@ func (g *gen) spellCall(pool []string) Event {
 	exprs := []string{s, "(" + s + ")", o + " OR " + s, "(" + s + " AND " + o + ")"}
 	e := g.pick(exprs)
 	if g.rng.Intn(2) == 0 {
-		return eventOf(obsSatisfies(e, []string{o, g.pick(g.t.Active)}), e, []string{o, g.pick(g.t.Active)})
+		l := []string{o, g.pick(g.t.Active)} // (built once: the recorded list must be the list that was passed)
+		return eventOf(obsSatisfies(e, l), e, l)
 	}
 	a := []string{s}
 	return eventOf(obsSatisfies(o, a), o, a)
